@@ -1021,36 +1021,64 @@ Frame._rvalue_plain = Frame.rvalue
 Frame.rvalue = _rvalue_with_tables
 
 
-def term_bits(t, atoms, width=64):
+def _in_ctype(v, t, optype, width):
+    """the value of an arithmetic node as C computes it: in the node's type (optype[t], recorded by the path engine) -
+    truncated to it and, for a signed type, sign-extended to the working width (an `int` result that is widened later
+    carries its sign bit upwards)"""
+    if not optype or t not in optype:
+        return v
+    ti = type_info(optype[t].replace('const ', '').strip())
+    if ti and len(ti) == 3 and isinstance(ti[0], int) and ti[0] < width:
+        return v.convert(ti[0], ti[1]).convert(width, ti[1])
+    return v
+
+
+def term_bits(t, atoms, width=64, tables=None, optype=None):
     """exact bit vector of a sym term built from constants, & | ^ ~, shifts by
     constants and integral casts over atom terms with known widths
-    (atoms: {term: (name, width, signed)})."""
+    (atoms: {term: (name, width, signed)}).  tables: {array name: [constants]} of GF(2)-linear
+    constant tables (table[0] == 0, table[a ^ b] == table[a] ^ table[b]); a lookup table[x] is then
+    the XOR of table[1 << j] over the set bits j of x."""
     if t in atoms:
         name, w, sg = atoms[t]
         return BV.sym(name, w, sg).convert(width, sg)
     k = t[0]
+    if k == 'i' and tables and t[1][0] == '&' and t[1][1][0] == 'v' and t[1][1][1] in tables:
+        vals = tables[t[1][1][1]]
+        nb = (len(vals) - 1).bit_length()
+        if len(vals) != 1 << nb or vals[0] != 0 or any(vals[a ^ b] != vals[a] ^ vals[b] for a in range(len(vals)) for b in (1 << j for j in range(nb))):
+            raise Unsupported('table %s is not GF(2)-linear' % t[1][1][1])
+        idx = term_bits(t[2], atoms, width, tables, optype)
+        if any(b != ZERO for b in idx.bits[nb:]):
+            raise Unsupported('table index not reduced to %d bits' % nb)
+        out = [ZERO] * width
+        for j in range(nb):
+            for o in range(width):
+                if (vals[1 << j] >> o) & 1:
+                    out[o] = bxor(out[o], idx.bits[j])
+        return BV(out, False)
     if k == 'c':
         return BV.const(t[1], width, t[1] < 0)
     if k == 'cast':
         ti = type_info(t[1])
-        v = term_bits(t[2], atoms, width)
+        v = term_bits(t[2], atoms, width, tables, optype)
         if ti and len(ti) == 3:
             return v.convert(ti[0], ti[1]).convert(width, ti[1])
         return v
     if k in ('&b', '|b', '^b'):
-        a, b = term_bits(t[1], atoms, width), term_bits(t[2], atoms, width)
+        a, b = term_bits(t[1], atoms, width, tables, optype), term_bits(t[2], atoms, width, tables, optype)
         f = {'&b': band, '|b': bor, '^b': bxor}[k]
-        return BV([f(x, y) for x, y in zip(a.bits, b.bits)], False)
+        return _in_ctype(BV([f(x, y) for x, y in zip(a.bits, b.bits)], False), t, optype, width)
     if k in ('<<', '>>'):
-        a = term_bits(t[1], atoms, width)
+        a = term_bits(t[1], atoms, width, tables, optype)
         if t[2][0] != 'c' or not (0 <= t[2][1] < width):
             raise Unsupported('shift by non-constant')
         c = t[2][1]
         if k == '<<':
-            return BV([ZERO] * c + list(a.bits[:width - c]), a.signed)
+            return _in_ctype(BV([ZERO] * c + list(a.bits[:width - c]), a.signed), t, optype, width)
         fill = a.bits[-1] if a.signed else ZERO
-        return BV(list(a.bits[c:]) + [fill] * c, a.signed)
+        return _in_ctype(BV(list(a.bits[c:]) + [fill] * c, a.signed), t, optype, width)
     if k == '~':
-        a = term_bits(t[1], atoms, width)
+        a = term_bits(t[1], atoms, width, tables, optype)
         return BV([bnot(x) for x in a.bits], a.signed)
     raise Unsupported('term %r outside the bit domain' % (t[0],))
